@@ -28,22 +28,34 @@ Proof. intros [ls H]. exact (product_walk fsm_cfg hctl hcl http_step http_tok ht
 Lemma walk_cluster s : kreach s -> is_walk (rm s).
 Proof. intros [ls H]. exact (product_walk fsm_cfg kctl kcl cluster_step cluster_tok cluster_ops_fine _ ls s H). Qed.
 
-(* what a walk is, spelled out: consecutive states are related by the table or the later one is Error *)
-Lemma walk_okb_spec c a l :
-  walk_okb c a l = true <->
-  forall k, k < length l ->
-            allowedb c (nth k (a :: l) a) (nth k l a) = true \/ nth k l a = Error.
+(* what a walk is, spelled out: every step is in the table or targets Error *)
+Inductive walk (c : tcfg) : st -> list st -> Prop :=
+| walk_nil a : walk c a []
+| walk_cons a b t : (allowedb c a b = true \/ b = Error) -> walk c b t -> walk c a (b :: t).
+
+Lemma walk_okb_iff c a l : walk_okb c a l = true <-> walk c a l.
 Proof.
   revert a; induction l as [|b t IH]; intros a.
-  - cbn. split; [intros _ k Hk; lia|reflexivity].
-  - cbn [walk_okb]. rewrite andb_true_iff, orb_true_iff, IH, st_eqb_eq. split.
-    + intros [H0 Ht] k Hk. destruct k; [exact H0|]. cbn [nth length] in *.
-      specialize (Ht k ltac:(lia)).
-      destruct k; cbn [nth] in *; destruct t; cbn [nth length] in *; try lia; exact Ht.
-    + intros H. split; [exact (H 0 ltac:(cbn; lia))|]. intros k Hk.
-      specialize (H (S k) ltac:(cbn; lia)). cbn [nth] in H.
-      destruct k; cbn [nth] in *; destruct t; cbn [nth length] in *; try lia; exact H.
+  - split; [constructor|reflexivity].
+  - cbn [walk_okb]. rewrite andb_true_iff, orb_true_iff, st_eqb_eq, IH. split.
+    + intros [H0 Ht]. now constructor.
+    + intros H. inversion H; subst. auto.
 Qed.
+
+Lemma is_walk_spec m : is_walk m -> walk fsm_cfg New (hist m) /\ cur m = last (hist m) New.
+Proof. intros [A B]. split; [now apply walk_okb_iff|exact B]. Qed.
+
+Lemma walk_composite_spec s : creach s -> walk fsm_cfg New (hist (rm s)) /\ cur (rm s) = last (hist (rm s)) New.
+Proof. intros H. apply is_walk_spec, walk_composite, H. Qed.
+Lemma walk_http_spec s : hreach s -> walk fsm_cfg New (hist (rm s)) /\ cur (rm s) = last (hist (rm s)) New.
+Proof. intros H. apply is_walk_spec, walk_http, H. Qed.
+Lemma walk_cluster_spec s : kreach s -> walk fsm_cfg New (hist (rm s)) /\ cur (rm s) = last (hist (rm s)) New.
+Proof. intros H. apply is_walk_spec, walk_cluster, H. Qed.
+
+Lemma machines_reachable :
+  (forall s, creach s -> mreach (rm s)) /\ (forall s, hreach s -> mreach (rm s)) /\
+  (forall s, kreach s -> mreach (rm s)).
+Proof. exact (conj creach_machine (conj hreach_machine kreach_machine)). Qed.
 
 (* ---- stream ---- *)
 Lemma stream_machine s i x :
@@ -87,19 +99,38 @@ Definition stream_witness : list label :=
    LFwdTake 0; LDeliver 0; LRecv 0 Running; LFwdPut 0; LRecv 0 Booting; LFwdTake 0; LFwdPut 0;
    LRecv 0 Running].
 
+Definition stream_witness_state : option state :=
+  Eval vm_compute in run (step fsm_cfg) init stream_witness.
+Lemma stream_witness_runs : run (step fsm_cfg) init stream_witness = stream_witness_state.
+Proof. vm_compute. reflexivity. Qed.
+
 Lemma stream_refuted :
   exists s x, run (step fsm_cfg) init stream_witness = Some s /\ nth_error (subs s) 0 = Some x /\
               dropped x = false /\ hist s = [Booting; Running] /\
               got x = [Running; Booting; Running] /\
               walk_okb fsm_cfg Running [Booting; Running] = false.
-Proof. eexists. eexists. repeat split; vm_compute; reflexivity. Qed.
+Proof.
+  pose proof stream_witness_runs as E. unfold stream_witness_state in E.
+  eexists. eexists. split; [exact E|]. split; [reflexivity|].
+  split; [reflexivity|]. split; [reflexivity|]. split; [reflexivity|]. vm_compute. reflexivity.
+Qed.
 
 (* outside the hypothesis (consumer slower than the broadcast timeout) a change is lost *)
+Definition drop_witness : list label :=
+  [LSub; LOp (OTrans Booting) true; LDeliver 0; LOp (OTrans Running) true; LDrop 0].
+Definition drop_witness_state : option state :=
+  Eval vm_compute in run (step fsm_cfg) init drop_witness.
+Lemma drop_witness_runs : run (step fsm_cfg) init drop_witness = drop_witness_state.
+Proof. vm_compute. reflexivity. Qed.
+
 Lemma slow_may_drop :
-  exists s x, run (step fsm_cfg) init [LSub; LOp (OTrans Booting) true; LDeliver 0;
-                                       LOp (OTrans Running) true; LDrop 0] = Some s /\
-              nth_error (subs s) 0 = Some x /\ dropped x = true /\ pend s = [] /\ bch x = [Booting].
-Proof. eexists. eexists. repeat split; vm_compute; reflexivity. Qed.
+  exists s x, run (step fsm_cfg) init drop_witness = Some s /\
+              nth_error (subs s) 0 = Some x /\ dropped x = true /\ pend s = [] /\
+              bch x = [Booting] /\ cur s = Running.
+Proof.
+  pose proof drop_witness_runs as E. unfold drop_witness_state in E.
+  eexists. eexists. split; [exact E|]. repeat (split; [reflexivity|]). reflexivity.
+Qed.
 
 (* ---- IsRunning ---- *)
 Lemma isrunning_machine s b s' :
